@@ -2,6 +2,7 @@
 import builtins
 import random
 
+import common
 from common import Report, proof_stage, coq_eval_files, parse_nat_list
 from sched import Sched, Susp, Cancelled
 import asyncstdlib as a
@@ -92,6 +93,7 @@ class System:
             sysm.log.append(("bodyend", i, None))
             return ("value", i)
         self.body = body
+        self.manager = manager
         for i in range(len(cfg["raises"])):
             self.sched.add(self.task(i))
 
@@ -279,7 +281,7 @@ def run(tier, seed):
     cfgs = fixed + [gen_cfg(rng, 2) for _ in range(4 if tier == "quick" else 30)]
     if tier != "quick":
         cfgs.append({"generator": True, "se": 1, "sb": 1, "sx": 1, "suppress": False, "raises": [False, True, False]})
-    cap = 600 if tier == "quick" else 40000
+    cap = 600 * common.scale(rep) if tier == "quick" else 40000
     for cfg in cfgs:
         for actions in all_schedules(cfg, cap):
             nexh += 1
@@ -288,6 +290,29 @@ def run(tier, seed):
     for _ in range(600 if tier == "quick" else 20000):
         cfg = gen_cfg(rng)
         handle(cfg, random_schedule(cfg, rng, 0.1))
+    # the decorating manager instance may also be used directly in `async with` (before / around calls)
+    for nested in (False, True):
+        cfg = {"generator": True, "se": 0, "sb": 0, "sx": 0, "suppress": False, "raises": [False, False]}
+        sysm = System(cfg)
+
+        async def direct():
+            sysm.sched.current = 0
+            if nested:
+                async with sysm.manager:
+                    return await sysm.body(0), await sysm.body(1)
+            async with sysm.manager:
+                pass
+            return await sysm.body(0), await sysm.body(1)
+        try:
+            from gencalc import drive
+            res = drive(direct())
+            why = None if res == (("value", 0), ("value", 1)) else "results %r" % (res,)
+        except BaseException as e:  # noqa
+            why = "calling the decorated function %s using the manager directly failed: %r" % ("inside" if nested else "after", e)
+        rep.count(("direct-use", nested), True)
+        if why:
+            fails += 1
+            rep.violation("decorator:direct-use", {"why": why})
     # repeated sequential calls
     for n in (1, 4, 7):
         cfg = {"generator": True, "se": 1, "sb": 1, "sx": 1, "suppress": False, "raises": [i % 3 == 1 for i in range(n)]}
